@@ -443,7 +443,9 @@ C09_Write(r, c2, w) ==
       mine == SelectSeq([i \in 1..Len(r.q) |-> i], LAMBDA i : r.q[i].a = w.a /\ r.q[i].mid = p.id /\ Pending(c2, r.q[i].d))
   IN IF ~(isP2 \/ isRel) \/ mine = <<>> THEN r
      ELSE LET i == mine[Len(mine)]  e == r.q[i] IN
-          IF isP2 THEN (IF e.phase = "rel" THEN [r EXCEPT !.err = "C09.publish_after_pubrel", !.info = <<w.a, p.id>>]
+          \* (any unfinished exchange of this identifier that has reached its PUBREL forbids the PUBLISH: the identifier
+          \*  becomes free only on PUBCOMP or when the session is discarded)
+          IF isP2 THEN (IF \E j \in 1..Len(mine) : r.q[mine[j]].phase = "rel" THEN [r EXCEPT !.err = "C09.publish_after_pubrel", !.info = <<w.a, p.id>>]
                         ELSE [r EXCEPT !.q[i].phase = "pub", !.hit = @ + 1])
           ELSE (IF (e.phase = "pub" /\ e.rec) \/ e.phase = "rel" THEN [r EXCEPT !.q[i].phase = "rel", !.hit = @ + 1]
                 ELSE [r EXCEPT !.err = "C09.pubrel_without_pubrec", !.info = <<w.a, p.id, e.phase>>])
